@@ -65,7 +65,7 @@ TRUSTED = [
     "harness/py2lean.py + fn_def/Tr19 in harness/props/C19.py: translate the function bodies of lambert.py (_C,_S,_y,_F,_dF, A and f/g/gdot slices of _lambert), leo.py (three return expressions of sso), "
     "j2.py (com, dOmega), statevector.py (Infos.n), ltan.py (raan2ltan, ltan2raan), constellation.py (raan, nu of both classes) into Generated/{LambertFn,LeoFn,LtanFn,WalkerFn}{F,R}.lean on every run",
     "lean/templates/Mission.tpl (hand-written: 3-vector algebra, dtheta selection, scan and Newton loops, v0/v1 assembly, Walker generator loops, beta, bplane), tied by the correspondence run",
-    "numpy / libm double arithmetic vs R: tolerance 1e-9 relative (1e-7 on Lambert velocities after Newton), Walker fleets bit-exact",
+    "numpy / libm double arithmetic vs R: tolerance 1e-9 relative (1e-7 (1 + 0.01/dE^2) on Lambert velocities after the iteration, whose exit criterion is an absolute 1e-8 in z = dE^2), Walker fleets bit-exact",
 ]
 ASSUMPTIONS = [
     "theorems are over R; the implementation computes in IEEE doubles",
@@ -605,7 +605,9 @@ def correspondence(ctx):
             if fin and m[7] != 1.0:
                 out.fail("model-lambert-solve", "model Newton loop did not leave through `break` although the code returned finite velocities", inp, observed=real, expected=m)
                 return
-            _cmp(out, "model-lambert-solve", "_lambert velocities differ from the model", inp, real, m[:6], rtol=1e-7, scales=[spd] * 6)
+            # the loop stops once a step is < 1e-8 in z (a bisection step leaves an error of that order): for tiny arcs
+            # (root z = dE^2 << 1) two double-precision runs taking different Newton/bisection paths differ by ~1e-8/z relative
+            _cmp(out, "model-lambert-solve", "_lambert velocities differ from the model", inp, real, m[:6], rtol=1e-7 * (1 + 0.01 / inp["dE"] ** 2), scales=[spd] * 6)
             out.sample({"request": "lambert", "input": {k: inp[k] for k in ("a", "e", "dnu", "tof", "prograde")}, "impl": real, "model": m}, limit=2)
         add(" ".join(["lambert", "1" if pro else "0"] + [f2b(x) for x in list(r0) + list(r1) + [c["tof"], mu]]), chk)
     # 3. sun-synchronous solver and J2 node rate
